@@ -20,7 +20,7 @@ SHORT_BR = ["BRA", "BNE", "BEQ", "BCC", "BCS", "BSR", "BMI", "BPL", "BHI", "BLS"
 LONG_BR = ["LBRA", "LBNE", "LBEQ", "LBSR", "LBCC", "LBMI", "LBRN", "LBHI"]
 IDX_REGS = ["X", "Y", "U", "S"]
 PSH = ["PSHS", "PULS", "PSHU", "PULU"]
-PSH_REGS = ["A", "B", "CC", "DP", "X", "Y", "U", "PC", "D"]
+PSH_REGS = ["A", "B", "CC", "DP", "X", "Y", "U", "S", "PC", "D"]
 TFR_PAIRS = ["A,B", "B,A", "X,Y", "D,X", "U,S", "A,CC", "DP,B", "X,PC", "Y,D"]
 
 
